@@ -244,4 +244,34 @@ theorem encode_inj (a b : Cbor) (ha : a.wf = true) (hb : b.wf = true) (h : a.enc
   rw [h1] at h2
   exact Option.some.inj h2
 
+/-! ### decoder limits: definitional lemmas (the spec `decodeAllLimited` is the unlimited decoder plus `within`) -/
+
+/-- Within the limits the limited decoder is the identity on encoded values … -/
+theorem limited_roundtrip (l : DecLimits) (v : Cbor) (hwf : v.wf = true) (h : v.within l l.maxNest = true) :
+    decodeAllLimited l v.encode = some v := by
+  simp [decodeAllLimited, decodeAll_encode v hwf, h]
+
+/-- … and above any of them it rejects what the encoder wrote (full statement `∀ v, decodeAllLimited l
+v.encode = some v` is false: `limits_witness`). -/
+theorem limited_rejects (l : DecLimits) (v : Cbor) (hwf : v.wf = true) (h : v.within l l.maxNest = false) :
+    decodeAllLimited l v.encode = none := by
+  simp [decodeAllLimited, decodeAll_encode v hwf, h]
+
+/-- Any map with more pairs than `maxMap`, any array with more elements than `maxArray`. -/
+theorem limited_rejects_big (l : DecLimits) :
+    (∀ kvs : List (Cbor × Cbor), (Cbor.map kvs).wf = true → l.maxMap < kvs.length →
+      decodeAllLimited l (Cbor.map kvs).encode = none) ∧
+    (∀ xs : List Cbor, (Cbor.array xs).wf = true → l.maxArray < xs.length →
+      decodeAllLimited l (Cbor.array xs).encode = none) := by
+  constructor
+  · intro kvs hwf h
+    apply limited_rejects l _ hwf
+    simp [Cbor.within]
+    intro _ h2; omega
+  · intro xs hwf h
+    apply limited_rejects l _ hwf
+    simp [Cbor.within]
+    intro _ h2; omega
+
+
 end Juno.C07
